@@ -42,7 +42,14 @@ var gapConsts = []time.Duration{
 	11: 14 * 24 * time.Hour,
 	12: 21 * 24 * time.Hour,
 	13: 30 * 24 * time.Hour,
+	14: 0, // late-bound: jump to the earliest pending deadline of the chain state (+Delta ms); see Chain.deadlineGap
 }
+
+// GapToDeadline is the gap kind that the executor resolves against the state: the next block is placed at
+// the earliest upcoming deadline (vote end, dispute end, fee deadline, stake-tracker expiry, jail release,
+// unbonding maturity, gov voting end, 12 h after the newest aggregate, two weeks after the last checkpoint)
+// plus Delta milliseconds (-1, 0, +1).
+const GapToDeadline = 14
 
 func (g GapSpec) Duration() time.Duration {
 	var d time.Duration
